@@ -52,3 +52,38 @@ PROPS = {
                            "C12_partial_data_kept": "proved", "C12_status_carried": "proved"},
     },
 }
+
+WS_TRUSTED = [
+    "Go scheduler / channel / mutex semantics taken as sequentially consistent small steps at the controller's granularity (yield hooks behind the `verif` build tag + scripted WSConn + paused forwarder); the Go memory model itself is not modelled (lock-set invariant in the model; `-race` runs of the real client in the thorough tier)",
+    "uuid.NewString freshness: a server frame can only name an id that was handed out (subscription index in the model)",
+    "the connection-ack timeout (a timer) is not modelled",
+    "the generated forwarder is represented by the harness's forwarder with the same shape (decode payload, type-assert channel, send)",
+]
+PROPS["C13"] = {
+    "coq": ["Properties/C13.v", "Corr/Wscorr.v"],
+    "trusted": WS_TRUSTED,
+    "assumptions": ["application behaviour as in the property: at most one Unsubscribe per id, one Close; connection writes complete"],
+    "level_text": "Invariants of an unbounded small-step model of the WebSocket client (any number of subscriptions, server frames of any kind/order/multiplicity, faults, connection loss, any schedule): channels closed exactly when marked, the reader never blocks for good on the error channel, the client mutex is held across a scheduling point only in handleErr, every API call can always take its next step (or waits only for a reader step that is enabled and frees the mutex), and no goroutine panics unless the application ends a subscription while one of its messages is between lookup and channel send (that residual sender/closer race is refuted in the model and listed as an open finding). Tied to websocket.go/subscription.go by per-step in-kernel replay of every explored schedule of the real client under a deterministic controller.",
+    "level_note": "partial: Go memory-model races are covered by the lock-set invariant on the model plus -race runs, not by a theorem; timer behaviour not modelled; the residual send-on-closed-channel race is an open finding.",
+    "theorem_status": {"C13_no_panic_partial": "proved (hypothesis: no end-of-subscription while its message is in flight)",
+                       "C13_no_panic_refuted": "refuted full statement (witness schedule) - open finding",
+                       "C13_api_returns": "proved", "C13_reader_never_stuck": "proved", "C13_lockset": "proved"},
+}
+PROPS["C14"] = {
+    "coq": ["Properties/C14.v", "Corr/Wscorr.v"],
+    "trusted": WS_TRUSTED,
+    "assumptions": [],
+    "level_text": "Theorems over every reachable state of the unbounded step model: each subscription channel is closed at most once and exactly when the subscription is marked ended; after the end nothing more is delivered and it is not closed again, whatever follows; Unsubscribe returning nil has ended the subscription; what a channel received is a prefix of the payloads sent for its id (delivered_prefix invariant). Tied to the code by the per-step in-kernel replay plus an in-kernel prefix oracle on the observed deliveries.",
+    "level_note": "Trusted as for C13. Payload error surfacing is checked by the Go oracle on the real forwarder, not modelled.",
+    "theorem_status": {"C14_closed_at_most_once": "proved", "C14_nothing_after_end": "proved", "C14_unsubscribe_ends": "proved"},
+}
+PROPS["C15"] = {
+    "coq": ["Properties/C15.v", "Corr/Wscorr.v"],
+    "trusted": WS_TRUSTED,
+    "assumptions": [],
+    "level_text": "Theorems: for every sequence of handshake operations with any fault/garbage/ack pattern Start leaves no reader and a closed connection on failure and writes init before reading the ack; a failed Subscribe write unregisters and writes nothing; Close collects only active ids, continues after a failed close-frame write and its final step always closes connection and error channel; every Close thread can always progress. Tied to the code by per-step replay incl. an every-k connection-fault sweep, and the Go oracle over the frames really written (init first, fresh ids, <=1 complete per id, nothing after close).",
+    "level_note": "partial: the complete frame grammar as a regular-language theorem over [frames] is checked by the oracle/correspondence, the proved part is listed in theorem_status.",
+    "theorem_status": {"C15_start_fault_cleanup": "proved", "C15_subscribe_fault_unregisters": "proved",
+                       "C15_close_collects_only_active": "proved", "C15_close_goes_on": "proved",
+                       "C15_close_always_releases": "proved", "C15_close_reaches_release": "proved"},
+}
